@@ -809,7 +809,12 @@ void ScriptEmitter::EmitCatch(sval_t val, const opval_t* try_begin_code_pos, sou
     const sizeInfo_t& info = countManager.getSizeInfo();
 
     StateScript* const oldStateScript = stateScript;
-    stateScript = manager.CreateCatchStateScript(try_begin_code_pos, code_pos(), info.numCatchLabels);
+    StateScript* const catchStateScript = manager.CreateCatchStateScript(try_begin_code_pos, code_pos(), info.numCatchLabels);
+    if (catchStateScript) {
+        // the counting pass creates no state script: keep the current one so that a nested
+        // try/switch does not bind a reference to a null pointer
+        stateScript = catchStateScript;
+    }
 
     EmitValue(val);
 
@@ -1645,7 +1650,12 @@ void ScriptEmitter::EmitSwitch(sval_t val, sourceLocation_t sourceLoc)
 
     oldStateScript = stateScript;
     // reserve number of case
-    stateScript = manager.CreateSwitchStateScript(info.numCaseLabels);
+    StateScript* const switchStateScript = manager.CreateSwitchStateScript(info.numCaseLabels);
+    if (switchStateScript) {
+        // the counting pass creates no state script: keep the current one so that a nested
+        // try/switch does not bind a reference to a null pointer
+        stateScript = switchStateScript;
+    }
 
     EmitOpcode(OP_SWITCH, sourceLoc);
 
